@@ -191,6 +191,19 @@ def main(argv=None):
                 viol_known.setdefault(k['id'], [k, 0])[1] += 1
             else:
                 viol_new.append((d['cfg'], v))
+    cross = []
+    for s_ in samples:
+        q = s_.get('query') or {}
+        full = q.pop('_full', None)
+        if full and q.get('z3') in ('sat', 'unsat') and len(cross) < 3:
+            from vlib.smt import cvc5_verdict
+            v = cvc5_verdict(full)
+            cross.append({'label': q.get('label'), 'z3': q.get('z3'), 'cvc5': v})
+            if v in ('sat', 'unsat') and v != q.get('z3'):
+                harness_errors.append({'cfg': s_['config'], 'trace': 'z3 (%s) and cvc5 (%s) disagree on the dumped query %s' % (q.get('z3'), v, q.get('label'))})
+    for d in results:
+        for q in d.get('samples') or []:
+            q.pop('_full', None)
     if not samples:
         samples = [{'config': d['cfg'], 'status': d['status']} for d in results[:3]]
 
@@ -262,6 +275,7 @@ def main(argv=None):
                 'bounds': meta.get('bounds', {}).get(args.tier, meta.get('bounds')),
                 'outside_bounds': meta.get('outside', ''),
                 'engine_validation': {'configs_cross_checked_against_real_torch': validated, 'max_deviation': max_dev},
+                'cross_solver_check': cross,
                 'status_counts': status_count,
                 'known_findings_hit': {k: n for k, (_, n) in viol_known.items()},
                 'trusted_base': ['z3 5.1 (QF_LRA / QF_NRA)', 'symtorch agrees with real torch (checked per configuration on the whole operator / sample points)',
